@@ -35,4 +35,5 @@ run m_serialize_nocopy C05 C18
 run m_finalize_keep_private C16
 run m_ctx_no_private_check C16
 run m_yaql_len_ge C16
+run m_resume_ignores_paused C09 C03 C02
 echo DONE >> $OUT
